@@ -45,6 +45,9 @@ class Atom:
         self.scoped = None   # constraints that hold only where the atom is used (domain assumptions), re-added per path
 
 
+XCHECK_BUDGET = int(os.environ.get("VERIF_XCHECK_BUDGET", "24"))
+
+
 class Ctx:
     """Everything belonging to one obligation: atoms, side constraints, assumptions, counters."""
 
@@ -153,7 +156,14 @@ class Ctx:
         self.queries += 1
         rs = str(r)
         if cross and rs in ("sat", "unsat") and os.environ.get("VERIF_XCHECK") == "1":
-            self._cross(s, rs)
+            # per obligation the first XCHECK_BUDGET goal queries are re-decided by the two other solvers (each run costs up to
+            # 20 s per solver; an obligation with 256 paths would otherwise spend most of an hour in subprocess start-up)
+            self.xdone = getattr(self, "xdone", 0) + 1
+            if self.xdone <= XCHECK_BUDGET:
+                self._cross(s, rs)
+            else:
+                self.xstats = getattr(self, "xstats", {"z3-4.8.12": {"agree": 0, "unknown": 0}, "cvc5": {"agree": 0, "unknown": 0}})
+                self.xstats["skipped_over_budget"] = self.xstats.get("skipped_over_budget", 0) + 1
         return rs, (s.model() if rs == "sat" else None)
 
     def _cross(self, s, rs):
